@@ -175,6 +175,8 @@ def run(ctx):
         """an unreviewed site is accepted without review when (a) a dominating test relates to its
         operands, or its operand is clamped; or (b) it is a reviewed site whose function was renamed.
         `extra` = number of sites that need a reason."""
+        if re.search(r"overflow:(Rem|Div|Neg)", kind):
+            return False          # MIN / -1, MIN % -1, -MIN: a test of the divisor against zero does not exclude them
         ok_sites = [(f_, bi_) + guarded_by_related_test(f_, bi_) for f_, bi_ in where[(fn, kind)]]
         good = [x for x in ok_sites if x[2]]
         if len(good) >= extra:
